@@ -58,6 +58,10 @@ typedef struct trial {
 	_Atomic uint64_t c05_bad;
 	int use_workloop;
 	int use_global;
+	int retarget;                /* retarget mode: queues [ntargets, nq) are leaves whose target changes while they are in use */
+	int ntargets;
+	_Atomic int rt_stop;
+	_Atomic uint64_t retargets;
 	uint64_t salt;
 	vf_profile_t prof;
 	_Atomic int tids[64];
@@ -146,7 +150,7 @@ static void item_body(void *ctx)
 				/* synchronous only towards a strictly later tree: the client program cannot deadlock */
 				kind = (c == 8) ? VF_K_SYNC : VF_K_ASYNC_AND_WAIT;
 				if (t->qs[qi].kind == VF_Q_WORKLOOP || t->qs[qi].tree <= q->tree || q->kind == VF_Q_GLOBAL
-						|| t->qs[qi].kind == VF_Q_GLOBAL) kind = VF_K_ASYNC;
+						|| t->qs[qi].kind == VF_Q_GLOBAL || t->retarget) kind = VF_K_ASYNC;
 			}
 			submit_item(t, &r, qi, kind, (int)vf_rnd_n(&r, 2), 0xffff, NULL, NULL);
 		}
@@ -310,10 +314,61 @@ static void *client_main(void *arg)
 static const long g_qos_ids[] = { DISPATCH_QUEUE_PRIORITY_DEFAULT, DISPATCH_QUEUE_PRIORITY_LOW,
 		DISPATCH_QUEUE_PRIORITY_BACKGROUND, QOS_CLASS_UTILITY, QOS_CLASS_DEFAULT };
 
+/* retarget mode: a few root-level target queues and "legacy" leaves (dispatch_queue_create without a target:
+ * the only queues whose target may change after activation). Only per-queue rules are claimed for the leaves:
+ * which hierarchy an item runs in depends on when the asynchronous retarget takes effect. */
+static void build_retarget_graph(trial_t *t)
+{
+	vf_rng_t *r = &t->rng;
+	t->ntargets = (int)vf_rnd_range(r, 2, 3);
+	t->nq = t->ntargets + (int)vf_rnd_range(r, 1, 4);
+	for (int i = 0; i < t->nq; i++) {
+		hq_queue_t *q = &t->qs[i];
+		memset(q, 0, sizeof(*q));
+		int leaf = i >= t->ntargets;
+		q->kind = vf_rnd_n(r, 100) < (leaf ? 55 : 65) ? VF_Q_SERIAL : VF_Q_CONCURRENT;
+		q->target = -1; q->tree = i;
+		q->domain = (!leaf && q->kind == VF_Q_SERIAL) ? i + 1 : 0;
+		snprintf(q->label, sizeof(q->label), "vf.rt%d.%s.%s", i, leaf ? "leaf" : "target", q->kind == VF_Q_SERIAL ? "serial" : "conc");
+		q->chain_hash = vf_hash64(VF_HASH_INIT ^ t->salt, 0);
+		q->rw_check = ~(uint64_t)0;
+		dispatch_queue_attr_t attr = q->kind == VF_Q_SERIAL ? DISPATCH_QUEUE_SERIAL : DISPATCH_QUEUE_CONCURRENT;
+		if (leaf && vf_rnd_n(r, 3) == 0) {
+			static const dispatch_qos_class_t qc[] = { QOS_CLASS_USER_INITIATED, QOS_CLASS_DEFAULT, QOS_CLASS_UTILITY, QOS_CLASS_BACKGROUND };
+			attr = dispatch_queue_attr_make_with_qos_class(attr, qc[vf_rnd_n(r, 4)], -(int)vf_rnd_n(r, 4));
+		}
+		q->q = dispatch_queue_create(q->label, attr);
+		if (leaf && vf_rnd_n(r, 2)) dispatch_set_target_queue(q->q, t->qs[vf_rnd_n(r, (uint32_t)t->ntargets)].q);
+	}
+	t->retarget = 1;
+}
+
+static void *retargeter_main(void *arg)
+{
+	trial_t *t = arg;
+	vf_rng_t r;
+	vf_rng_seed(&r, t->salt, 0x7e7a);
+	while (!atomic_load(&t->rt_stop)) {
+		hq_queue_t *leaf = &t->qs[t->ntargets + (int)vf_rnd_n(&r, (uint32_t)(t->nq - t->ntargets))];
+		uint32_t c = vf_rnd_n(&r, 10);
+		dispatch_queue_t tq = c < 7 ? t->qs[vf_rnd_n(&r, (uint32_t)t->ntargets)].q :
+				c < 9 ? dispatch_get_global_queue(c == 7 ? DISPATCH_QUEUE_PRIORITY_DEFAULT : DISPATCH_QUEUE_PRIORITY_LOW, 0) :
+				DISPATCH_TARGET_QUEUE_DEFAULT;
+		dispatch_set_target_queue(leaf->q, tq);
+		/* (not logical progress for the watchdog: clients stuck behind a retarget must yield a stuck witness) */
+		if (atomic_fetch_add(&t->retargets, 1) >= 20000) { struct timespec ts = { 0, 2000000 }; nanosleep(&ts, NULL); continue; }
+		uint32_t w = vf_rnd_n(&r, 4);
+		if (w == 0) sched_yield();
+		else if (w < 3) { struct timespec ts = { 0, (long)vf_rnd_n(&r, 300000) }; nanosleep(&ts, NULL); }
+	}
+	return NULL;
+}
+
 static void build_graph(trial_t *t)
 {
 	vf_rng_t *r = &t->rng;
 	const char *mode = vf_opts.mode;
+	if (!strcmp(mode, "retarget")) { build_retarget_graph(t); return; }
 	int want_hier = !strcmp(mode, "hier") || !strcmp(mode, "default") || !strcmp(mode, "wl");
 	int serial_only = !strcmp(mode, "serial");
 	int conc_focus = !strcmp(mode, "barrier");
@@ -488,6 +543,7 @@ static void run_std_trial(int idx)
 	if (!strcmp(mode, "pingpong")) t->shape = SH_PINGPONG;
 	else if (!strcmp(mode, "flood")) t->shape = SH_FLOOD;
 	else if (!strcmp(mode, "mixed")) t->shape = SH_MIXED;
+	else if (!strcmp(mode, "retarget")) { uint32_t c = vf_rnd_n(r, 10); t->shape = c < 5 ? SH_MIXED : c < 8 ? SH_PINGPONG : SH_FLOOD; }
 	else t->shape = (int)vf_rnd_n(r, SH_NSHAPES);
 	t->nclients = (int)vf_rnd_range(r, 2, 12);
 	vf_perturb_draw(r, &t->prof);
@@ -514,7 +570,18 @@ static void run_std_trial(int idx)
 		vf_rng_seed(&cl[i].rng, t->salt, 1000 + (uint64_t)i);
 		if (pthread_create(&cl[i].th, NULL, client_main, &cl[i])) vf_fail("pthread_create");
 	}
+	pthread_t rth[2]; int nrt = 0;
+	if (t->retarget) {
+		nrt = 1 + (int)(t->salt & 1);
+		for (int i = 0; i < nrt; i++) if (pthread_create(&rth[i], NULL, retargeter_main, t)) vf_fail("pthread_create");
+	}
 	for (int i = 0; i < t->nclients; i++) pthread_join(cl[i].th, NULL);
+	if (t->retarget) {
+		atomic_store(&t->rt_stop, 1);
+		for (int i = 0; i < nrt; i++) pthread_join(rth[i], NULL);
+		vf_count("retargets_while_in_use", atomic_load(&t->retargets));
+		vf_count("retarget_trials", 1);
+	}
 	vf_watch_end();
 	/* all submissions returned: now every accepted item must run */
 	uint64_t expected = atomic_load(&t->expected);
